@@ -76,7 +76,7 @@ def clip(s, n=300):
 
 
 class Recorder:
-    MAX_SIGS = 400000
+    MAX_SIGS = 100000
     MAX_VIOL = 40
 
     def __init__(self, prop, shard=0):
